@@ -219,7 +219,7 @@ func c09CLI(c *fw.Ctx) fw.Outcome {
 	in := filepath.Join(c.TmpDir(), "in.srt")
 	out := filepath.Join(c.TmpDir(), "out.srt")
 	os.WriteFile(in, []byte(simpleSRT(cs)), 0o644)
-	os.Remove(out)
+	out = outPath(r, in, out)
 	exp := c09Spec(cs, d)
 	msg, err := cli("sync", "-i", in, "-s", time.Duration(d).String(), "-o", out)
 	key := hashCues(cs, uint64(d), 0xc11)
